@@ -16,7 +16,7 @@ LEVEL = "exploration"
 RULE = (
     "case = (timeout T, cancel instant tc in {never, before the call, grid}, matching-response instant tr in {never, grid}, background traffic "
     "{none, bursts of notifications, flood every 10 ms, other-id responses}, progress stream [(t, token right/foreign/missing, fields)], "
-    "callback raising at chosen positions) on a 10 ms virtual-time grid biased to poll boundaries, the deadline and each other; "
+    "callback raising at chosen positions, optionally a follow-up request pending on the same connection while late progress for the finished one arrives) on a 10 ms virtual-time grid biased to poll boundaries, the deadline and each other; "
     "oracle = reference timeline of allowed outcomes; non-trivial = two of {cancel, response, deadline} within 0.5 s of each other, "
     "or a flood, or >=2 progress notifications with a raising callback; distinct = distinct full case"
 )
@@ -104,14 +104,32 @@ def check(case: Dict[str, Any]) -> Outcome:
 
     user_params: Optional[Dict[str, Any]] = case.get("params", {"q": 1})
 
-    async def call(r, w):
-        return await send_message(
-            r, w, "work/do", user_params, timeout=T, message_id="req-14",
-            cancellation_token=token, progress_callback=cb if use_cb else None,
-        )
+    first_end: Dict[str, float] = {}
+    calls2: List[Tuple[float, Any, Any, Any]] = []
+    follow_up = bool(case.get("follow_up"))
 
-    res = drive(call, schedule, side=side, wait_first_write=not cancelled_before, max_vtime=T + 30.0)
-    t_end = res.t_end
+    async def cb2(progress, total, message):
+        calls2.append((asyncio.get_running_loop().time(), progress, total, message))
+
+    async def call(r, w):
+        try:
+            return await send_message(
+                r, w, "work/do", user_params, timeout=T, message_id="req-14",
+                cancellation_token=token, progress_callback=cb if use_cb else None,
+            )
+        finally:
+            first_end["t"] = asyncio.get_running_loop().time()
+            if follow_up:
+                # the application carries on: another request on the same connection is pending while
+                # late traffic for the finished one keeps arriving
+                try:
+                    await send_message(r, w, "work/next", None, timeout=1.0, message_id="req-14b", progress_callback=cb2)
+                except BaseException as e2:  # noqa
+                    if isinstance(e2, asyncio.CancelledError):
+                        raise
+
+    res = drive(call, schedule, side=side, wait_first_write=not cancelled_before, max_vtime=T + 32.0)
+    t_end = first_end.get("t", res.t_end)
 
     # ---------------- classes / non-triviality
     pts = [p for p in (tc if (tc is not None and tc >= 0) else None, tr, T) if p is not None]
@@ -124,7 +142,7 @@ def check(case: Dict[str, Any]) -> Outcome:
         "resp:" + ("none" if tr is None else "timed"),
         f"progress:{min(len(prog), 3)}",
         "cb-raises" if raise_at else "cb-ok",
-    )
+    ) + (("follow-up-request",) if follow_up else ())
 
     def obs() -> str:
         if res.outcome == "return":
@@ -188,7 +206,10 @@ def check(case: Dict[str, Any]) -> Outcome:
     writes = [w for _, w in res.written]
     reqs = [w for w in writes if isinstance(w, dict) and w.get("method") == "work/do"]
     canc = [w for w in writes if isinstance(w, dict) and w.get("method") == "notifications/cancelled"]
-    rest = [w for w in writes if w not in reqs and w not in canc]
+    nxt = [w for w in writes if isinstance(w, dict) and w.get("method") == "work/next"]
+    rest = [w for w in writes if w not in reqs and w not in canc and w not in nxt]
+    if follow_up and calls2:
+        out.fail("progress-callback-of-another-request-invoked", f"the follow-up request's callback got {calls2[:2]!r} although no notification bears its token")
     if rest:
         out.fail("unexpected-message-written", repr(rest))
     if cancelled_before:
@@ -223,7 +244,9 @@ def check(case: Dict[str, Any]) -> Outcome:
             if len(got) == k and all(strict_eq(list(g), list(w)) for g, w in zip(got, want_max[:k])):
                 good = True
         if not good:
-            if len(got) > len(want_max):
+            if len(got) > len(want_max) and any(c[0] > t_end + EPS for c in calls):
+                sig = "progress-callback-invoked-after-the-request-ended"
+            elif len(got) > len(want_max):
                 foreign = [p for p in prog_meta if p["tok"] != "right"]
                 sig = "progress-callback-invoked-for-foreign-or-missing-token" if foreign else "progress-callback-invoked-too-often"
             elif len(got) < len(want_min):
@@ -299,6 +322,12 @@ def cases(draw):
     cb_raise = draw(st.lists(st.integers(0, 4), max_size=3, unique=True)) if nprog else []
     case = {"T": Tcs, "tc": tc, "tr": tr, "bg": bg, "progress": prog, "cb_raise": sorted(cb_raise),
             "use_cb": draw(st.sampled_from([True, True, True, False])), "use_token": draw(st.booleans())}
+    if draw(st.integers(0, 3)) == 0:
+        case["follow_up"] = True
+        # traffic for the finished request while the next one is pending
+        for off in draw(st.lists(st.sampled_from([1, 10, 30, 55, 90]), max_size=2, unique=True)):
+            case["progress"].append([Tcs + off, "right", ["progress", "total"], [off, 100, None]])
+        case["progress"].sort(key=lambda p: p[0])
     return case
 
 
@@ -325,6 +354,9 @@ def job_grid(col: Collector, seed: int, tier: str, shard: int, nshards: int) -> 
                         "progress": [[10, "right", ["progress", "total"], [1, 2, None]], [60, "foreign", ["progress"], [5, None, None]], [110, "right", ["progress"], [9, None, None]]],
                         "cb_raise": [0], "use_cb": True, "use_token": True}
                 col.record(case, check(case))
+                if bgk == "none":
+                    case = dict(case, follow_up=True, progress=case["progress"] + [[125, "right", ["progress"], [10, None, None]], [150, "right", ["progress", "total"], [11, 12, None]]])
+                    col.record(case, check(case))
     if shard == 0:
         col.exhaustive_parts.append("all (cancel, response) placements over {never, before-call} U 11 grid instants with T=1.2 s x {no traffic, flood, burst right after the cancel}")
 
